@@ -274,6 +274,10 @@ def schemes(draw, *, labels="neutral", allow_full=True, max_datasets=4, features
         # exactly representable tolerances against grid spacings 0.5 / 1 / 1.5 / 2 (sharp decisions), all methods
         case["clp_link_tolerance"] = draw(st.sampled_from([0.25, 0.5, 0.75, 1.0, 1.5]))
         case["clp_link_method"] = draw(st.sampled_from(["nearest", "backward", "forward"]))
+        for d in datasets[1:]:
+            # whole-number coordinates of a later dataset as an integer array: aligned to the (fractional) points of an earlier one
+            if all(float(g).is_integer() for g in d["global_axis"]) and draw(st.booleans()):
+                d.setdefault("repr", {"dtype": "float64", "layout": "C"})["axis_int"] = True
     return case
 
 
